@@ -11,7 +11,7 @@ import time
 ROOT = os.path.dirname(os.path.dirname(os.path.abspath(__file__)))
 SPEC = os.path.join(ROOT, "spec")
 WORK = os.path.join(ROOT, "work")
-REPLAYS = os.path.join(ROOT, "replays")
+REPLAY_DIR = os.path.join(ROOT, "replays")
 EVID = os.path.join(ROOT, "evidence")
 TARGET = os.path.join(ROOT, "target")
 HARNESS_DIR = os.path.join(ROOT, "harness")
@@ -269,7 +269,7 @@ class Run:
 
     def finish(self):
         os.makedirs(EVID, exist_ok=True)
-        os.makedirs(REPLAYS, exist_ok=True)
+        os.makedirs(REPLAY_DIR, exist_ok=True)
         known = [k for k in load_known() if k.get("property") == self.prop and k.get("status") == "open"]
         new = []
         seen_known = {}
@@ -290,7 +290,7 @@ class Run:
         for i, (key, desc, replay) in enumerate(new):
             if shown >= 10:
                 break
-            path = os.path.join(REPLAYS, "%s-%d-%d.json" % (self.prop, seed(), i))
+            path = os.path.join(REPLAY_DIR, "%s-%d-%d.json" % (self.prop, seed(), i))
             with open(path, "w") as fh:
                 json.dump({"property": self.prop, "key": key, "what": desc, "replay": replay}, fh, indent=1)
             log("  violation: %s -- %s" % (key, desc))
